@@ -12,6 +12,8 @@ Clauses (names used in counters and violation records):
                IDF partial Jacobians equal the closed-form partials (also off y*)
   disciplinary DisciplinaryOpt == MDF == closed form when there is no strong coupling
   space        design-space contents of each formulation; IDF refuses a space without a coupling
+  start        IDF(start_at_equilibrium=True): coupling targets of the design space == y*(x0), design variables
+               untouched, consistency constraints zero and functions == closed form at that start point
   optimum      SLSQP reaches the reference optimum of a strictly convex problem in every formulation
                (f_opt within 1e-6 relative, x_opt within 2e-3 relative)
 """
@@ -36,7 +38,9 @@ RULE = (
     "constraints chosen among the f_i / y_i outputs (eq/ineq, value, positive), design-space variable order "
     "(natural or shuffled, couplings given or not, one local variable left out, one unused variable), main MDA "
     "(MDAChain with inner Jacobi/Gauss-Seidel/Newton-Raphson, or these directly on one-SCC systems), "
-    "normalize_constraints in {F,T} (both built for every system), 3 design points (current/interior/on bounds) "
+    "normalize_constraints in {F,T} (both built for every system), IDF(start_at_equilibrium=True) from consistent or "
+    "inconsistent initial coupling targets (70% of the systems), IDF(n_processes=2, threads) (25%), MDA settings "
+    "use_lu_fact / warm_start, 3 design points (current/interior/on bounds) "
     "plus one off-equilibrium point; optimisation cases: linear couplings + strictly convex quadratic objective, "
     "convex constraints, SLSQP per formulation against an independent reference optimum. A case is distinct by "
     "that tuple of shape features (not by coefficients) and non-trivial when the system has at least one coupling "
@@ -98,7 +102,12 @@ MIN_COUNTERS = {
                  "space_oracle_evaluations": 21000, "mask_roundtrip_checked": 21000,
                  "idf_missing_coupling_refused": 5800, "mdf_idf_points_compared": 19000,
                  "mdf_disciplinaryopt_points_compared": 6500, "optimum_oracle_evaluations": 1250, "optimum_MDF": 380,
-                 "optimum_IDF": 750, "optimum_DisciplinaryOpt": 130},
+                 "optimum_IDF": 750, "optimum_DisciplinaryOpt": 130,
+                 "idf_started_at_equilibrium": 4500, "idf_started_at_equilibrium_feed_forward": 1150,
+                 "idf_started_at_equilibrium_single_scc": 2400, "idf_started_at_equilibrium_multi_scc": 600,
+                 "idf_started_at_equilibrium_from_consistent_targets": 1350,
+                 "idf_started_at_equilibrium_from_inconsistent_targets": 3100,
+                 "idf_start_point_oracle_evaluations": 14000, "idf_parallel_cases": 1650},
 }
 SHARD_TIMEOUT = {"quick": 400, "thorough": 2400}
 
